@@ -28,9 +28,11 @@ type Event struct {
 }
 
 type Watcher struct {
-	Events *vrt.Chan[Event]
-	Errors *vrt.Chan[error]
-	closed bool
+	Events  *vrt.Chan[Event]
+	Errors  *vrt.Chan[error]
+	closed  bool
+	removed map[string]bool // directories taken off the watch list again
+	sinks   map[string]bool // directories that have a sink registered with vos
 }
 
 // FailNew makes NewWatcher fail (fault injection by the harness).
@@ -47,8 +49,19 @@ func (w *Watcher) Add(dir string) error {
 	if !strings.HasPrefix(dir+"/", vos.Root) && dir+"/" != vos.Root {
 		return errors.New("vfsnotify: only virtual directories can be watched: " + dir)
 	}
+	key := strings.TrimSuffix(dir, "/")
+	if w.removed != nil {
+		delete(w.removed, key)
+	}
+	if w.sinks == nil {
+		w.sinks = map[string]bool{}
+	}
+	if w.sinks[key] {
+		return nil // watched before (and possibly removed): the sink is still there
+	}
+	w.sinks[key] = true
 	vos.Watch(dir, func(e vos.Event) {
-		if w.closed {
+		if w.closed || w.removed[key] {
 			return
 		}
 		var op Op
@@ -66,6 +79,32 @@ func (w *Watcher) Add(dir string) error {
 	})
 	return nil
 }
+
+// Remove stops watching a directory (as fsnotify's Watcher.Remove).
+func (w *Watcher) Remove(dir string) error {
+	if w.removed == nil {
+		w.removed = map[string]bool{}
+	}
+	w.removed[strings.TrimSuffix(dir, "/")] = true
+	return nil
+}
+
+// String renders the operation like fsnotify does.
+func (op Op) String() string {
+	var parts []string
+	for _, x := range []struct {
+		o Op
+		n string
+	}{{Create, "CREATE"}, {Write, "WRITE"}, {Remove, "REMOVE"}, {Rename, "RENAME"}, {Chmod, "CHMOD"}} {
+		if op&x.o != 0 {
+			parts = append(parts, x.n)
+		}
+	}
+	return strings.Join(parts, "|")
+}
+
+// Has reports whether the operation includes h (as fsnotify's Op.Has).
+func (op Op) Has(h Op) bool { return op&h != 0 }
 
 func (w *Watcher) Close() error {
 	if w.closed {
